@@ -38,3 +38,11 @@ package eventloop
 //@   trusted registers handlers through generic Register and context.WithCancel; not verified
 //@   ensures result1 != nil
 //@   modifies el.handlers[*], alloc
+
+// AddEvent: the ghost trace `added` logs the events handed to the event loop by code under
+// contract. Handlers registered with UnsafeRunInAddEvent (context cancellation only) run
+// inside AddEvent and are assumed not to touch protocol state.
+//@ func (*EventLoop).AddEvent
+//@   trusted runs UnsafeRunInAddEvent handlers (closures) and pushes to the queue (queue contract: C14)
+//@   emits added(event)
+//@   modifies el.eventQ.head, el.eventQ.tail, el.eventQ.entries[*]
